@@ -557,16 +557,24 @@ structure Linked3 (m m' : Map X) (ps : List (Nat × Nat)) : Prop where
     pq.1 ≠ 0 ∧ pq.2 ≠ 0 ∧ pq.1 < m.n ∧ pq.2 < m.n
   rest : ∀ x, (∀ pq, pq ∈ ps → x ≠ pq.1 ∧ x ≠ pq.2) → m'.β 3 x = m.β 3 x
   /-- different pairs share no dart (each link needs both darts 3-free) -/
-  cross : ps.Pairwise (fun x y => x.1 ≠ y.1 ∧ x.1 ≠ y.2 ∧ x.2 ≠ y.1 ∧ x.2 ≠ y.2)
+  cross : ∀ x, x ∈ ps → ∀ y, y ∈ ps → x ≠ y → x.1 ≠ y.1 ∧ x.1 ≠ y.2 ∧ x.2 ≠ y.1 ∧ x.2 ≠ y.2
 
 theorem Linked3.refl (m : Map X) : Linked3 m m [] :=
-  ⟨rfl, fun _ _ _ => rfl, fun pq h => absurd h (by simp), fun _ _ => rfl, List.Pairwise.nil⟩
+  ⟨rfl, fun _ _ _ => rfl, fun pq h => absurd h (by simp), fun _ _ => rfl, fun x h => absurd h (by simp)⟩
+
+/-- only the set of pairs matters -/
+theorem Linked3.of_mem {m m' : Map X} {ps qs : List (Nat × Nat)} (h : Linked3 m m' ps)
+    (hmem : ∀ x, x ∈ qs ↔ x ∈ ps) : Linked3 m m' qs :=
+  ⟨h.n, h.other, fun pq hq => h.pairs pq ((hmem pq).1 hq),
+    fun x hx => h.rest x fun pq hp => hx pq ((hmem pq).2 hp),
+    fun x hx y hy => h.cross x ((hmem x).1 hx) y ((hmem y).1 hy)⟩
 
 theorem Linked3.single {m : Map X} (h : Sized 4 m) {l r : Nat} (hl0 : l ≠ 0) (hr0 : r ≠ 0)
     (hl : l < m.n) (hr : r < m.n) (f1 : m.β 3 l = 0) (f2 : m.β 3 r = 0) :
     Linked3 m (m.linkI 3 l r) [(l, r)] := by
   have eβ := h.β_linkI (i := 3) (by omega) hl hr
-  refine ⟨rfl, ?_, ?_, ?_, by simp⟩
+  refine ⟨rfl, ?_, ?_, ?_, fun x hx y hy hxy => absurd ((by simpa using hx : x = (l, r)).trans
+    (by simpa using hy : y = (l, r)).symm) hxy⟩
   · intro e d he
     rw [eβ]
     have : ¬ (3 = e) := fun hh => he hh.symm
@@ -599,8 +607,15 @@ theorem Linked3.append {m m1 m2 : Map X} {ps qs : List (Nat × Nat)} (h1 : Linke
     · rw [← a1, hh, b4]
     · rw [← a2, hh, b3]
     · rw [← a2, hh, b4]
-  refine ⟨h2.n.trans h1.n, fun e d he => by rw [h2.other e d he, h1.other e d he], ?_, ?_,
-    List.pairwise_append.2 ⟨h1.cross, h2.cross, fun pq hp rs hq => disj pq hp rs hq⟩⟩
+  refine ⟨h2.n.trans h1.n, fun e d he => by rw [h2.other e d he, h1.other e d he], ?_, ?_, ?_⟩
+  rotate_left 2
+  · intro x hx y hy hxy
+    rcases List.mem_append.1 hx with hx | hx <;> rcases List.mem_append.1 hy with hy | hy
+    · exact h1.cross x hx y hy hxy
+    · exact disj x hx y hy
+    · obtain ⟨d1, d2, d3, d4⟩ := disj y hy x hx
+      exact ⟨fun hh => d1 hh.symm, fun hh => d3 hh.symm, fun hh => d2 hh.symm, fun hh => d4 hh.symm⟩
+    · exact h2.cross x hx y hy hxy
   · intro pq hm
     rcases List.mem_append.1 hm with hp | hq
     · obtain ⟨a1, a2, a3, a4, a5, a6, a7, a8⟩ := h1.pairs pq hp
@@ -623,7 +638,7 @@ theorem linkWalk_linked {ld rd stop i j : Nat} (hi3 : i ≠ 3) (hj3 : j ≠ 3) :
     ∀ (f ls rs : Nat) (m m' : Map X) (a b : Nat), Sized 4 m →
       run (threeLinkWalk (X := X) ld rd stop i j f ls rs) m = (.ok (a, b), m') →
       ∃ k, Linked3 m m' (walkPairs m i j k ls rs) ∧ a = it m i k ls ∧ b = it m j k rs ∧
-        (a = stop ∨ a = 0) ∧ ∀ t, t < k → it m i t ls ≠ stop := by
+        (a = stop ∨ a = 0) ∧ (∀ t, t < k → it m i t ls ≠ stop) ∧ Sized 4 m' := by
   intro f
   induction f with
   | zero =>
@@ -649,14 +664,14 @@ theorem linkWalk_linked {ld rd stop i j : Nat} (hi3 : i ≠ 3) (hj3 : j ≠ 3) :
           have hrsn : rs < m.n := ((hs.okβ 3 rs).1 ok2).2
           have L1 := Linked3.single hs hc.2 hrs hlsn hrsn f1 f2
           have hs1 : Sized 4 (m.linkI 3 ls rs) := (hs.setβ _ _ _).setβ _ _ _
-          obtain ⟨k, L2, ha, hb2, hst, hne⟩ := ih _ _ (m.linkI 3 ls rs) m' a b hs1 h
+          obtain ⟨k, L2, ha, hb2, hst, hne, hsz⟩ := ih _ _ (m.linkI 3 ls rs) m' a b hs1 h
           have hβi : ∀ x, (m.linkI 3 ls rs).β i x = m.β i x := fun x => L1.other i x hi3
           have hβj : ∀ x, (m.linkI 3 ls rs).β j x = m.β j x := fun x => L1.other j x hj3
           rw [walkPairs_congr hβi hβj, hβi, hβj] at L2
           rw [it_congr hβi, hβi] at ha
           simp only [it_congr hβi, hβi] at hne
           rw [it_congr hβj, hβj] at hb2
-          refine ⟨k + 1, L1.append L2, ha, hb2, hst, ?_⟩
+          refine ⟨k + 1, L1.append L2, ha, hb2, hst, ?_, hsz⟩
           intro t ht
           cases t with
           | zero => exact hc.1
@@ -665,7 +680,7 @@ theorem linkWalk_linked {ld rd stop i j : Nat} (hi3 : i ≠ 3) (hj3 : j ≠ 3) :
         obtain ⟨hab, rfl⟩ := run_pure_ok h
         simp only [Prod.mk.injEq] at hab
         obtain ⟨rfl, rfl⟩ := hab
-        exact ⟨0, Linked3.refl _, rfl, rfl, by omega, fun t ht => by omega⟩
+        exact ⟨0, Linked3.refl _, rfl, rfl, by omega, fun t ht => by omega, hs⟩
 
 /-- **`three_link` on a CLOSED left face**: exactly the pairs `(β1^t ld, β0^t rd)`, `t < L`, get
     3-linked, `L` being the number of darts of both faces -/
@@ -689,7 +704,7 @@ theorem threeLink3_linked_closed {n ld rd : Nat} {m m' : Map X} {u : Unit} (hs :
   have hrn : rd < m.n := ((hs.okβ 3 rd).1 ok2).2
   have L0 := Linked3.single hs hl0 hr0 hln hrn f1 f2
   have hs0 : Sized 4 (m.linkI 3 ld rd) := (hs.setβ _ _ _).setβ _ _ _
-  obtain ⟨k, L1, ha, hb2, hst, hne⟩ := linkWalk_linked (by omega) (by omega) _ _ _ _ m1 a b hs0 hwalk
+  obtain ⟨k, L1, ha, hb2, hst, hne, _⟩ := linkWalk_linked (by omega) (by omega) _ _ _ _ m1 a b hs0 hwalk
   have hβ1 : ∀ x, (m.linkI 3 ld rd).β 1 x = m.β 1 x := fun x => L0.other 1 x (by omega)
   have hβ0 : ∀ x, (m.linkI 3 ld rd).β 0 x = m.β 0 x := fun x => L0.other 0 x (by omega)
   rw [walkPairs_congr hβ1 hβ0, hβ1, hβ0] at L1
@@ -1373,6 +1388,19 @@ theorem pairsV3_closed {m : Map X} (h : WF 4 m) {ld rd L : Nat} (hln : ld < m.n)
 
 /-! ## `three_link` links WHOLE faces (closed or open) -/
 
+theorem periodic_nz {m : Map X} {i d L : Nat} (hnull : m.β i 0 = 0) (hL : 0 < L)
+    (hp : it m i L d = d) (hd : d ≠ 0) : ∀ T, it m i T d ≠ 0 := by
+  have hc : ∀ c, it m i (c * L) d = d := by
+    intro c
+    induction c with
+    | zero => simp
+    | succ c ih => rw [Nat.succ_mul, it_add, ih, hp]
+  intro T hT
+  have hle : T ≤ T * L := Nat.le_mul_of_pos_right T hL
+  have : it m i (T + (T * L - T)) d = 0 := by rw [it_add, hT, it_null hnull]
+  rw [show T + (T * L - T) = T * L by omega, hc] at this
+  exact hd this
+
 /-- the darts of `ps` are closed under the non-null β0 / β1 images, side by side -/
 def Covered (m : Map X) (ps : List (Nat × Nat)) : Prop :=
   ∀ pq, pq ∈ ps → ∀ e, e < 2 →
@@ -1416,7 +1444,6 @@ theorem threeLink3_linked {n ld rd : Nat} {m m' : Map X} {u : Unit} (hw : WF 4 m
   have d10 : Dir 1 0 := Or.inl ⟨rfl, rfl⟩
   have d01 : Dir 0 1 := Or.inr ⟨rfl, rfl⟩
   have hs := hw.toSized
-  have h' := h
   unfold threeLink3 at h
   obtain ⟨_, m0, hl, h⟩ := run_bind_ok h
   obtain ⟨ok1, ok2, f1, f2, rfl⟩ := iLinkCore_ok hl
@@ -1432,7 +1459,7 @@ theorem threeLink3_linked {n ld rd : Nat} {m m' : Map X} {u : Unit} (hw : WF 4 m
   have hrn : rd < m.n := ((hs.okβ 3 rd).1 ok2).2
   have L0 := Linked3.single hs hl0 hr0 hln hrn f1 f2
   have hs0 : Sized 4 (m.linkI 3 ld rd) := (hs.setβ _ _ _).setβ _ _ _
-  obtain ⟨k, L1, ha, hb2, hst, hne⟩ := linkWalk_linked (by omega) (by omega) _ _ _ _ m1 a b hs0 hwalk
+  obtain ⟨k, L1, ha, hb2, hst, hne, hs1⟩ := linkWalk_linked (by omega) (by omega) _ _ _ _ m1 a b hs0 hwalk
   have hβ1 : ∀ x, (m.linkI 3 ld rd).β 1 x = m.β 1 x := fun x => L0.other 1 x (by omega)
   have hβ0 : ∀ x, (m.linkI 3 ld rd).β 0 x = m.β 0 x := fun x => L0.other 0 x (by omega)
   rw [walkPairs_congr hβ1 hβ0, hβ1, hβ0] at L1
@@ -1441,6 +1468,7 @@ theorem threeLink3_linked {n ld rd : Nat} {m m' : Map X} {u : Unit} (hw : WF 4 m
   have ha' : a = it m 1 (k + 1) ld := ha
   have hb' : b = it m 0 (k + 1) rd := hb2
   have LF : Linked3 m m1 (walkPairs m 1 0 (k + 1) ld rd) := L0.append L1
+  have mem0 : (ld, rd) ∈ walkPairs m 1 0 (k + 1) ld rd := (mem_walkPairs _ ld rd _).2 ⟨0, by omega, rfl⟩
   by_cases ha0 : a = 0
   · -- open faces: the backward walk
     rw [if_pos ha0] at h
@@ -1460,23 +1488,558 @@ theorem threeLink3_linked {n ld rd : Nat} {m m' : Map X} {u : Unit} (hw : WF 4 m
         obtain ⟨_, hm'⟩ := run_pure_ok h
         rw [hm']
         have hb20 : b2 = 0 := by omega
-        have hs1 : Sized 4 m1 := ⟨by rw [LF.n]; exact hs.npos, by
-          have := (hw.linkI (i := 3) (by omega) (by omega) hl0 hr0 (by
-            intro hh; subst hh
-            exact absurd ((Linked3.single hs hl0 hr0 hln hrn f1 f2).pairs (ld, ld) (by simp)).1 (by
-              intro _; exact False.elim (by
-                -- ld = rd is excluded below through the WF of the result; not needed here
-                exact absurd rfl (fun _ : ld = ld => by
-                  have := hw.npos; omega)))) hln hrn (by
-            cases hu : m.unused ld with
-            | false => rfl
-            | true => exact absurd (hw.unusedFree ld hln hu 3 (by omega)) (by
-                intro _; exact absurd rfl (fun _ : (0:Nat) = 0 => by have := hw.npos; omega))) (by
-            cases hu : m.unused rd with
-            | false => rfl
-            | true => exact absurd rfl (fun _ : (0:Nat) = 0 => by have := hw.npos; omega)) f1 f2).toSized
-          exact this.rows, sorry, sorry, sorry⟩
-        sorry
-  · sorry
+        obtain ⟨k', L2, ha2, hb22, hst2, _, _⟩ := linkWalk_linked (by omega) (by omega) _ _ _ _ m2 a2 b2 hs1 hwalk2
+        have gβ1 : ∀ x, m1.β 1 x = m.β 1 x := fun x => LF.other 1 x (by omega)
+        have gβ0 : ∀ x, m1.β 0 x = m.β 0 x := fun x => LF.other 0 x (by omega)
+        rw [walkPairs_congr gβ0 gβ1, gβ0, gβ1] at L2
+        rw [it_congr gβ0, gβ0] at ha2
+        rw [it_congr gβ1, gβ1] at hb22
+        have ha20 : a2 = 0 := by rcases hst2 with hh | hh <;> exact hh
+        have LA := LF.append L2
+        refine ⟨_, LA, List.mem_append_left _ mem0, ?_⟩
+        -- facts
+        have eF : it m 1 (k + 1) ld = 0 := by rw [← ha']; exact ha0
+        have eG : it m 0 (k + 1) rd = 0 := by rw [← hb']; exact hb0'
+        have eA : it m 0 k' (m.β 0 ld) = 0 := by rw [← ha2]; exact ha20
+        have eB : it m 1 k' (m.β 1 rd) = 0 := by rw [← hb22]; exact hb20
+        have nzF : ∀ t, t < k + 1 → it m 1 t ld ≠ 0 ∧ it m 0 t rd ≠ 0 := by
+          intro t ht
+          obtain ⟨_, _, _, _, a5, a6, _, _⟩ := LF.pairs _ ((mem_walkPairs _ ld rd _).2 ⟨t, ht, rfl⟩)
+          exact ⟨a5, a6⟩
+        have nzB : ∀ s, s < k' → it m 0 s (m.β 0 ld) ≠ 0 ∧ it m 1 s (m.β 1 rd) ≠ 0 := by
+          intro s hs'
+          obtain ⟨_, _, _, _, a5, a6, _, _⟩ := L2.pairs _ ((mem_walkPairs _ _ _ _).2 ⟨s, hs', rfl⟩)
+          exact ⟨a5, a6⟩
+        have memF : ∀ t, t < k + 1 → (it m 1 t ld, it m 0 t rd) ∈
+            walkPairs m 1 0 (k + 1) ld rd ++ walkPairs m 0 1 k' (m.β 0 ld) (m.β 1 rd) :=
+          fun t ht => List.mem_append_left _ ((mem_walkPairs _ ld rd _).2 ⟨t, ht, rfl⟩)
+        have memB : ∀ s, s < k' → (it m 0 s (m.β 0 ld), it m 1 s (m.β 1 rd)) ∈
+            walkPairs m 1 0 (k + 1) ld rd ++ walkPairs m 0 1 k' (m.β 0 ld) (m.β 1 rd) :=
+          fun s hs' => List.mem_append_right _ ((mem_walkPairs _ _ _ _).2 ⟨s, hs', rfl⟩)
+        have b0n : m.β 0 ld < m.n := hw.range 0 (by omega) ld hln
+        have b1n : m.β 1 rd < m.n := hw.range 1 (by omega) rd hrn
+        intro pq hm e he
+        have he' : e = 0 ∨ e = 1 := by omega
+        rcases List.mem_append.1 hm with hm | hm
+        · obtain ⟨t, ht, rfl⟩ := (mem_walkPairs _ ld rd pq).1 hm
+          rcases he' with rfl | rfl
+          · constructor
+            · -- β0 p_t
+              intro hne0
+              cases t with
+              | zero =>
+                  have : 0 < k' := by
+                    rcases Nat.eq_zero_or_pos k' with hk | hk
+                    · rw [hk] at eA; exact absurd eA hne0
+                    · exact hk
+                  exact ⟨_, memB 0 this, rfl⟩
+              | succ t =>
+                  refine ⟨_, memF t (by omega), ?_⟩
+                  exact (walk_back hw d10 hln (nzF (t + 1) ht).1).symm
+            · -- β0 q_t = q_{t+1}
+              intro hne0
+              have : t + 1 < k + 1 := by
+                rcases Nat.lt_or_ge (t + 1) (k + 1) with hh | hh
+                · exact hh
+                · have : t + 1 = k + 1 := by omega
+                  exfalso; apply hne0
+                  show m.β 0 (it m 0 t rd) = 0
+                  rw [← it_succ', this]; exact eG
+              exact ⟨_, memF (t + 1) this, it_succ' m 0 t rd⟩
+          · constructor
+            · intro hne0
+              have : t + 1 < k + 1 := by
+                rcases Nat.lt_or_ge (t + 1) (k + 1) with hh | hh
+                · exact hh
+                · have : t + 1 = k + 1 := by omega
+                  exfalso; apply hne0
+                  show m.β 1 (it m 1 t ld) = 0
+                  rw [← it_succ', this]; exact eF
+              exact ⟨_, memF (t + 1) this, it_succ' m 1 t ld⟩
+            · intro hne0
+              cases t with
+              | zero =>
+                  have : 0 < k' := by
+                    rcases Nat.eq_zero_or_pos k' with hk | hk
+                    · rw [hk] at eB; exact absurd eB hne0
+                    · exact hk
+                  exact ⟨_, memB 0 this, rfl⟩
+              | succ t =>
+                  refine ⟨_, memF t (by omega), ?_⟩
+                  exact (walk_back hw d01 hrn (nzF (t + 1) ht).2).symm
+        · obtain ⟨s, hs', rfl⟩ := (mem_walkPairs _ _ _ pq).1 hm
+          rcases he' with rfl | rfl
+          · constructor
+            · intro hne0
+              have : s + 1 < k' := by
+                rcases Nat.lt_or_ge (s + 1) k' with hh | hh
+                · exact hh
+                · have : s + 1 = k' := by omega
+                  exfalso; apply hne0
+                  show m.β 0 (it m 0 s (m.β 0 ld)) = 0
+                  rw [← it_succ', this]; exact eA
+              exact ⟨_, memB (s + 1) this, it_succ' m 0 s _⟩
+            · intro hne0
+              cases s with
+              | zero =>
+                  refine ⟨_, memF 0 (by omega), ?_⟩
+                  show rd = m.β 0 (m.β 1 rd)
+                  exact (hw.inv01 rd hrn (nzB 0 hs').2).symm
+              | succ s =>
+                  refine ⟨_, memB s (by omega), ?_⟩
+                  exact (walk_back hw d10 b1n (nzB (s + 1) hs').2).symm
+          · constructor
+            · intro hne0
+              cases s with
+              | zero =>
+                  refine ⟨_, memF 0 (by omega), ?_⟩
+                  show ld = m.β 1 (m.β 0 ld)
+                  exact (hw.inv10 ld hln (nzB 0 hs').1).symm
+              | succ s =>
+                  refine ⟨_, memB s (by omega), ?_⟩
+                  exact (walk_back hw d01 b0n (nzB (s + 1) hs').1).symm
+            · intro hne0
+              have : s + 1 < k' := by
+                rcases Nat.lt_or_ge (s + 1) k' with hh | hh
+                · exact hh
+                · have : s + 1 = k' := by omega
+                  exfalso; apply hne0
+                  show m.β 1 (it m 1 s (m.β 1 rd)) = 0
+                  rw [← it_succ', this]; exact eB
+              exact ⟨_, memB (s + 1) this, it_succ' m 1 s _⟩
+  · -- closed faces
+    rw [if_neg ha0] at h
+    have hald : a = ld := by rcases hst with hh | hh; exact hh; exact absurd hh ha0
+    by_cases hbrd : b ≠ rd
+    · rw [if_pos hbrd] at h; simp at h
+    · rw [if_neg hbrd] at h
+      obtain ⟨_, hm'⟩ := run_pure_ok h
+      rw [hm']
+      have hpl : it m 1 (k + 1) ld = ld := by rw [← ha']; exact hald
+      have hpr : it m 0 (k + 1) rd = rd := by rw [← hb']; omega
+      have cl : Cyc m 1 ld (k + 1) :=
+        ⟨by omega, hpl, periodic_nz (hw.null 1 (by omega)) (by omega) hpl hl0⟩
+      have cr : Cyc m 0 rd (k + 1) :=
+        ⟨by omega, hpr, periodic_nz (hw.null 0 (by omega)) (by omega) hpr hr0⟩
+      exact ⟨_, LF, mem0, covered_closed hw hln hrn cl cr⟩
+
+
+/-! ## `three_unlink` unlinks WHOLE faces (on mirrored, wholly 3-linked faces) -/
+
+/-- a face is 3-linked as a whole (`Props/C20b.lean`, `Sided`) -/
+def Sided3 (m : Map X) : Prop := ∀ d, d < m.n → m.β 1 d ≠ 0 → (m.β 3 d = 0 ↔ m.β 3 (m.β 1 d) = 0)
+
+instance (m : Map X) : Decidable (Sided3 m) := by unfold Sided3; exact inferInstance
+
+theorem Linked3.unlink_single {m : Map X} (h : WF 4 m) {l : Nat} (hl : l < m.n) (hne : m.β 3 l ≠ 0) :
+    Linked3 (m.unlinkI 3 l) m [(l, m.β 3 l)] := by
+  have hr : m.β 3 l < m.n := h.range 3 (by omega) l hl
+  have eβ := h.toSized.β_unlinkI (i := 3) (by omega) hl hr
+  have back : m.β 3 (m.β 3 l) = l := invol_back h (by omega) (by omega) hl hne
+  have hl0 : l ≠ 0 := fun hh => hne (by rw [hh]; exact h.null 3 (by omega))
+  refine ⟨rfl, ?_, ?_, ?_, fun x hx y hy hxy => absurd ((by simpa using hx : x = (l, m.β 3 l)).trans
+    (by simpa using hy : y = (l, m.β 3 l)).symm) hxy⟩
+  · intro e d he
+    rw [eβ]
+    have : ¬ (3 = e) := fun hh => he hh.symm
+    simp [this]
+  · intro pq hm
+    have : pq = (l, m.β 3 l) := by simpa using hm
+    subst this
+    refine ⟨rfl, back, ?_, ?_, hl0, hne, hl, hr⟩
+    · rw [eβ]
+      by_cases c : m.β 3 l = l
+      · simp [c]
+      · simp [c]
+    · rw [eβ]; simp
+  · intro x hx
+    have := hx (l, m.β 3 l) (by simp)
+    rw [eβ]
+    have a1 : ¬ (m.β 3 l = x) := fun hh => this.2 hh.symm
+    have a2 : ¬ (l = x) := fun hh => this.1 hh.symm
+    simp [a1, a2]
+
+/-- one direction of the walk of `three_unlink`: exactly the visited pairs get unlinked -/
+theorem unlinkWalk_unlinked {ld rd stop i j : Nat} {again : Bool} (hi : i < 3) (hj : j < 3) :
+    ∀ (f ls rs : Nat) (m m' : Map X) (o : Nat × Nat), WF 4 m → ls < m.n → rs < m.n →
+      run (threeUnlinkWalk (X := X) ld rd stop i j again f ls rs) m = (.ok o, m') →
+      ∃ k, Linked3 m' m (walkPairs m i j k ls rs) ∧ o.1 = it m i k ls ∧ o.2 = it m j k rs ∧
+        (o.1 = stop ∨ o.1 = 0) ∧ WF 4 m' ∧ ∀ t, t < k → it m i t ls ≠ stop := by
+  intro f
+  induction f with
+  | zero =>
+      intro ls rs m m' o _ _ _ h
+      unfold threeUnlinkWalk at h; simp at h
+  | succ f ih =>
+      intro ls rs m m' o hw hlsn hrsn h
+      unfold threeUnlinkWalk at h
+      by_cases hc : ls ≠ stop ∧ ls ≠ 0
+      · rw [if_pos hc] at h
+        obtain ⟨x, hx, h⟩ := run_ro_bind_ok (ReadOnly.rB _ _) h
+        obtain ⟨rfl, _, _⟩ := run_rB_ok hx
+        by_cases hlx : ls ≠ m.β 3 rs
+        · rw [if_pos hlx] at h; simp at h
+        · rw [if_neg hlx] at h
+          have hy : ∃ y, run ((fun y => if ls ≠ y then (Prog.panic : P X (Nat × Nat)) else do
+              iUnlinkCore 3 ls
+              let ls' ← rB i ls
+              let rs' ← rB j rs
+              threeUnlinkWalk ld rd stop i j again f ls' rs') y) m = (.ok o, m') := by
+            cases again with
+            | false =>
+                simp only [Bool.false_eq_true, if_false] at h
+                obtain ⟨y, _, h⟩ := run_ro_bind_ok (ReadOnly.pure _) h
+                exact ⟨y, h⟩
+            | true =>
+                simp only [if_true] at h
+                obtain ⟨y, _, h⟩ := run_ro_bind_ok (ReadOnly.rB _ _) h
+                exact ⟨y, h⟩
+          clear h
+          obtain ⟨y, h⟩ := hy
+          simp only [] at h
+          by_cases hly : ls ≠ y
+          · rw [if_pos hly] at h; simp at h
+          · rw [if_neg hly] at h
+            obtain ⟨_, m1, hl, h⟩ := run_bind_ok h
+            obtain ⟨_, _, hne, rfl⟩ := iUnlinkCore_ok hl
+            have em : (m.setβ 3 ls 0).setβ 3 (m.β 3 ls) 0 = m.unlinkI 3 ls := rfl
+            rw [em] at h
+            obtain ⟨ls', hb, h⟩ := run_ro_bind_ok (ReadOnly.rB _ _) h
+            obtain ⟨rfl, _, _⟩ := run_rB_ok hb
+            obtain ⟨rs', hb', h⟩ := run_ro_bind_ok (ReadOnly.rB _ _) h
+            obtain ⟨rfl, _, _⟩ := run_rB_ok hb'
+            have hw1 : WF 4 (m.unlinkI 3 ls) := hw.unlinkI (by omega) (by omega) hlsn hne
+            -- the right dart is the β3 image of the left one
+            have hlx' : ls = m.β 3 rs := by omega
+            have hrs : m.β 3 ls = rs := by
+              rw [hlx']; exact invol_back hw (by omega) (by omega) hrsn (by rw [← hlx']; exact hc.2)
+            have L1 := Linked3.unlink_single hw hlsn hne
+            rw [hrs] at L1
+            obtain ⟨k, L2, ha, hb2, hst, hw', hmin⟩ := ih _ _ (m.unlinkI 3 ls) m' o hw1
+              (hw1.range i (by omega) ls hlsn) (hw1.range j (by omega) rs hrsn) h
+            have hβi : ∀ x, (m.unlinkI 3 ls).β i x = m.β i x := fun x => (L1.other i x (by omega)).symm
+            have hβj : ∀ x, (m.unlinkI 3 ls).β j x = m.β j x := fun x => (L1.other j x (by omega)).symm
+            rw [walkPairs_congr hβi hβj, hβi, hβj] at L2
+            rw [it_congr hβi, hβi] at ha
+            rw [it_congr hβj, hβj] at hb2
+            simp only [it_congr hβi, hβi] at hmin
+            refine ⟨k + 1, (L2.append L1).of_mem (fun x => ?_), ha, hb2, hst, hw', ?_⟩
+            · simp only [walkPairs, List.mem_cons, List.mem_append, List.not_mem_nil, or_false]
+              exact Or.comm
+            · intro t ht
+              cases t with
+              | zero => exact hc.1
+              | succ t => exact hmin t (by omega)
+      · rw [if_neg hc] at h
+        obtain ⟨rfl, rfl⟩ := run_pure_ok h
+        exact ⟨0, Linked3.refl _, rfl, rfl, by omega, hw, fun t ht => by omega⟩
+
+/-- **`three_unlink` unlinks whole faces** on a mirrored map whose faces are 3-linked as a whole:
+    `m` is the resulting map with exactly the pairs of a list `ps` 3-linked, `(ld, β3 ld)` is one
+    of them, and the darts of `ps` are closed under the non-null β0 / β1 images on each side -/
+theorem threeUnlink3_unlinked {n ld : Nat} {m m' : Map X} {u : Unit} (hw : WF 4 m) (hM : Mirror m)
+    (hS : Sided3 m) (hln : ld < m.n)
+    (h : run (threeUnlink3 (X := X) n ld) m = (.ok u, m')) :
+    ∃ ps, Linked3 m' m ps ∧ (ld, m.β 3 ld) ∈ ps ∧ Covered m ps ∧ WF 4 m' := by
+  have d10 : Dir 1 0 := Or.inl ⟨rfl, rfl⟩
+  have d01 : Dir 0 1 := Or.inr ⟨rfl, rfl⟩
+  unfold threeUnlink3 at h
+  obtain ⟨rd, hb0, h⟩ := run_ro_bind_ok (ReadOnly.rB _ _) h
+  obtain ⟨rfl, _, _⟩ := run_rB_ok hb0
+  obtain ⟨_, m0, hl, h⟩ := run_bind_ok h
+  obtain ⟨_, _, hne, rfl⟩ := iUnlinkCore_ok hl
+  have em : (m.setβ 3 ld 0).setβ 3 (m.β 3 ld) 0 = m.unlinkI 3 ld := rfl
+  rw [em] at h
+  obtain ⟨ls0, hb, h⟩ := run_ro_bind_ok (ReadOnly.rB _ _) h
+  obtain ⟨rfl, _, _⟩ := run_rB_ok hb
+  obtain ⟨rs0, hb', h⟩ := run_ro_bind_ok (ReadOnly.rB _ _) h
+  obtain ⟨rfl, _, _⟩ := run_rB_ok hb'
+  obtain ⟨⟨a, b⟩, m1, hwalk, h⟩ := run_bind_ok h
+  simp only [] at h
+  have hrn : m.β 3 ld < m.n := hw.range 3 (by omega) ld hln
+  have hl0 : ld ≠ 0 := fun hh => hne (by rw [hh]; exact hw.null 3 (by omega))
+  have hw0 : WF 4 (m.unlinkI 3 ld) := hw.unlinkI (by omega) (by omega) hln hne
+  have L0 := Linked3.unlink_single hw hln hne
+  obtain ⟨k, L1, ha, hb2, hst, hw1, hminw⟩ := unlinkWalk_unlinked (by omega) (by omega) _ _ _ _ m1 (a, b) hw0
+    (hw0.range 1 (by omega) ld hln) (hw0.range 0 (by omega) _ hrn) hwalk
+  have hβ1 : ∀ x, (m.unlinkI 3 ld).β 1 x = m.β 1 x := fun x => (L0.other 1 x (by omega)).symm
+  have hβ0 : ∀ x, (m.unlinkI 3 ld).β 0 x = m.β 0 x := fun x => (L0.other 0 x (by omega)).symm
+  rw [walkPairs_congr hβ1 hβ0, hβ1, hβ0] at L1
+  simp only at ha hb2
+  rw [it_congr hβ1, hβ1] at ha
+  rw [it_congr hβ0, hβ0] at hb2
+  have ha' : a = it m 1 (k + 1) ld := ha
+  have hb' : b = it m 0 (k + 1) (m.β 3 ld) := hb2
+  have LF : Linked3 m1 m (walkPairs m 1 0 (k + 1) ld (m.β 3 ld)) := by
+    refine (L1.append L0).of_mem (fun x => ?_)
+    simp only [walkPairs, List.mem_cons, List.mem_append, List.not_mem_nil, or_false]
+    exact Or.comm
+  have mem0 : (ld, m.β 3 ld) ∈ walkPairs m 1 0 (k + 1) ld (m.β 3 ld) :=
+    (mem_walkPairs _ ld _ _).2 ⟨0, by omega, rfl⟩
+  -- in `m` the visited pairs are 3-linked to each other
+  have linkedF : ∀ t, t < k + 1 → m.β 3 (it m 1 t ld) = it m 0 t (m.β 3 ld) ∧ it m 1 t ld ≠ 0 ∧
+      it m 0 t (m.β 3 ld) ≠ 0 := by
+    intro t ht
+    obtain ⟨a1, _, _, _, a5, a6, _, _⟩ := LF.pairs _ ((mem_walkPairs _ ld _ _).2 ⟨t, ht, rfl⟩)
+    exact ⟨a1, a5, a6⟩
+  by_cases ha0 : a = 0
+  · -- open faces
+    rw [if_pos ha0] at h
+    by_cases hb0' : b ≠ 0
+    · rw [if_pos hb0'] at h; simp at h
+    · rw [if_neg hb0'] at h
+      have hb00 : b = 0 := by omega
+      obtain ⟨ls1, hc, h⟩ := run_ro_bind_ok (ReadOnly.rB _ _) h
+      obtain ⟨rfl, _, _⟩ := run_rB_ok hc
+      obtain ⟨rs1, hc', h⟩ := run_ro_bind_ok (ReadOnly.rB _ _) h
+      obtain ⟨rfl, _, _⟩ := run_rB_ok hc'
+      obtain ⟨⟨a2, b2⟩, m2, hwalk2, h⟩ := run_bind_ok h
+      obtain ⟨_, hm'⟩ := run_pure_ok h
+      rw [hm']
+      have gβ1 : ∀ x, m1.β 1 x = m.β 1 x := fun x => (LF.other 1 x (by omega)).symm
+      have gβ0 : ∀ x, m1.β 0 x = m.β 0 x := fun x => (LF.other 0 x (by omega)).symm
+      have hn1 : m1.n = m.n := LF.n.symm
+      obtain ⟨k', L2, ha2, hb22, hst2, hw2, _⟩ := unlinkWalk_unlinked (by omega) (by omega) _ _ _ _ m2 (a2, b2) hw1
+        (hw1.range 0 (by omega) ld (by rw [hn1]; exact hln)) (hw1.range 1 (by omega) _ (by rw [hn1]; exact hrn)) hwalk2
+      rw [walkPairs_congr gβ0 gβ1, gβ0, gβ1] at L2
+      simp only at ha2 hb22
+      rw [it_congr gβ0, gβ0] at ha2
+      rw [it_congr gβ1, gβ1] at hb22
+      have ha20 : a2 = 0 := by rcases hst2 with hh | hh <;> exact hh
+      have LA : Linked3 m2 m (walkPairs m 0 1 k' (m.β 0 ld) (m.β 1 (m.β 3 ld)) ++
+          walkPairs m 1 0 (k + 1) ld (m.β 3 ld)) := L2.append LF
+      refine ⟨_, LA, List.mem_append_right _ mem0, ?_, hw2⟩
+      have eF : it m 1 (k + 1) ld = 0 := by rw [← ha']; exact ha0
+      have eG : it m 0 (k + 1) (m.β 3 ld) = 0 := by rw [← hb']; exact hb00
+      have eA : it m 0 k' (m.β 0 ld) = 0 := by rw [← ha2]; exact ha20
+      have linkedB : ∀ s, s < k' → m.β 3 (it m 0 s (m.β 0 ld)) = it m 1 s (m.β 1 (m.β 3 ld)) ∧
+          it m 0 s (m.β 0 ld) ≠ 0 ∧ it m 1 s (m.β 1 (m.β 3 ld)) ≠ 0 := by
+        intro s hs'
+        obtain ⟨a1, _, _, _, a5, a6, _, _⟩ := LA.pairs _ (List.mem_append_left _ ((mem_walkPairs _ _ _ _).2 ⟨s, hs', rfl⟩))
+        exact ⟨a1, a5, a6⟩
+      have memF : ∀ t, t < k + 1 → (it m 1 t ld, it m 0 t (m.β 3 ld)) ∈
+          walkPairs m 0 1 k' (m.β 0 ld) (m.β 1 (m.β 3 ld)) ++ walkPairs m 1 0 (k + 1) ld (m.β 3 ld) :=
+        fun t ht => List.mem_append_right _ ((mem_walkPairs _ ld _ _).2 ⟨t, ht, rfl⟩)
+      have memB : ∀ s, s < k' → (it m 0 s (m.β 0 ld), it m 1 s (m.β 1 (m.β 3 ld))) ∈
+          walkPairs m 0 1 k' (m.β 0 ld) (m.β 1 (m.β 3 ld)) ++ walkPairs m 1 0 (k + 1) ld (m.β 3 ld) :=
+        fun s hs' => List.mem_append_left _ ((mem_walkPairs _ _ _ _).2 ⟨s, hs', rfl⟩)
+      have b0n : m.β 0 ld < m.n := hw.range 0 (by omega) ld hln
+      have b1n : m.β 1 (m.β 3 ld) < m.n := hw.range 1 (by omega) _ hrn
+      -- the mirror condition read along β0: the right-hand dart behind a linked pair
+      have mirror0 : ∀ x, x < m.n → m.β 0 x ≠ 0 → m.β 3 x ≠ 0 → m.β 3 (m.β 0 x) ≠ 0 →
+          m.β 0 (m.β 3 (m.β 0 x)) = m.β 3 x :=
+        fun x hx g1 g2 g3 => MAtG_flip hw d01 hx (hM _ (hw.range 0 (by omega) x hx)) g1 g2 g3
+      -- the right-hand side ends where the left-hand side ends
+      have endB : it m 1 k' (m.β 1 (m.β 3 ld)) = 0 := by
+        -- the last left dart x (β0 x = 0) and its partner y: β1 y = 0, else Sided + Mirror give β0 x ≠ 0
+        by_cases hy0 : it m 1 k' (m.β 1 (m.β 3 ld)) = 0
+        · exact hy0
+        · exfalso
+          -- x, y: the last linked pair of the backward side (or (ld, rd) when k' = 0)
+          have key : ∀ x y, x < m.n → y < m.n → m.β 3 x = y → x ≠ 0 → y ≠ 0 → m.β 0 x = 0 → m.β 1 y ≠ 0 → False := by
+            intro x y hx hy hxy hx0 hy0' h0x h1y
+            have h3y : m.β 3 y = x := by rw [← hxy]; exact invol_back hw (by omega) (by omega) hx (by rw [hxy]; exact hy0')
+            have hs := hS y hy h1y
+            have h3n : m.β 3 (m.β 1 y) ≠ 0 := fun hh => hx0 (by rw [← h3y]; exact hs.2 hh)
+            have := hM y hy h1y (by rw [h3y]; exact hx0) h3n
+            rw [h3y] at this
+            -- β1 (β3 (β1 y)) = x  ⇒  β0 x = β3 (β1 y) ≠ 0
+            have hzn : m.β 3 (m.β 1 y) < m.n := hw.range 3 (by omega) _ (hw.range 1 (by omega) y hy)
+            have := hw.inv01 _ hzn (by rw [this]; exact hx0)
+            rw [‹m.β 1 (m.β 3 (m.β 1 y)) = x›, h0x] at this
+            exact h3n this.symm
+          cases k' with
+          | zero =>
+              exact key ld (m.β 3 ld) hln hrn rfl hl0 hne (by simpa using eA) (by simpa using hy0)
+          | succ k'' =>
+              obtain ⟨l1, l2, l3⟩ := linkedB k'' (by omega)
+              refine key _ _ (it_lt hw (by omega) k'' _ b0n) (it_lt hw (by omega) k'' _ b1n) l1 l2 l3 ?_ ?_
+              · rw [← it_succ']; exact eA
+              · rw [← it_succ']; exact hy0
+      have nzF := fun t ht => (linkedF t ht).2
+      have nzB := fun s hs' => (linkedB s hs').2
+      intro pq hm e he
+      have he' : e = 0 ∨ e = 1 := by omega
+      rcases List.mem_append.1 hm with hm | hm
+      · obtain ⟨s, hs', rfl⟩ := (mem_walkPairs _ _ _ pq).1 hm
+        rcases he' with rfl | rfl
+        · constructor
+          · intro hne0
+            have : s + 1 < k' := by
+              rcases Nat.lt_or_ge (s + 1) k' with hh | hh
+              · exact hh
+              · have : s + 1 = k' := by omega
+                exfalso; apply hne0
+                show m.β 0 (it m 0 s (m.β 0 ld)) = 0
+                rw [← it_succ', this]; exact eA
+            exact ⟨_, memB (s + 1) this, it_succ' m 0 s _⟩
+          · intro hne0
+            cases s with
+            | zero =>
+                refine ⟨_, memF 0 (by omega), ?_⟩
+                show m.β 3 ld = m.β 0 (m.β 1 (m.β 3 ld))
+                exact (hw.inv01 _ hrn (nzB 0 hs').2).symm
+            | succ s =>
+                refine ⟨_, memB s (by omega), ?_⟩
+                exact (walk_back hw d10 b1n (nzB (s + 1) hs').2).symm
+        · constructor
+          · intro hne0
+            cases s with
+            | zero =>
+                refine ⟨_, memF 0 (by omega), ?_⟩
+                show ld = m.β 1 (m.β 0 ld)
+                exact (hw.inv10 ld hln (nzB 0 hs').1).symm
+            | succ s =>
+                refine ⟨_, memB s (by omega), ?_⟩
+                exact (walk_back hw d01 b0n (nzB (s + 1) hs').1).symm
+          · intro hne0
+            have : s + 1 < k' := by
+              rcases Nat.lt_or_ge (s + 1) k' with hh | hh
+              · exact hh
+              · have : s + 1 = k' := by omega
+                exfalso; apply hne0
+                show m.β 1 (it m 1 s (m.β 1 (m.β 3 ld))) = 0
+                rw [← it_succ', this]; exact endB
+            exact ⟨_, memB (s + 1) this, it_succ' m 1 s _⟩
+      · obtain ⟨t, ht, rfl⟩ := (mem_walkPairs _ ld _ pq).1 hm
+        rcases he' with rfl | rfl
+        · constructor
+          · intro hne0
+            cases t with
+            | zero =>
+                have : 0 < k' := by
+                  rcases Nat.eq_zero_or_pos k' with hk | hk
+                  · rw [hk] at eA; exact absurd eA hne0
+                  · exact hk
+                exact ⟨_, memB 0 this, rfl⟩
+            | succ t =>
+                refine ⟨_, memF t (by omega), ?_⟩
+                exact (walk_back hw d10 hln (nzF (t + 1) ht).1).symm
+          · intro hne0
+            have : t + 1 < k + 1 := by
+              rcases Nat.lt_or_ge (t + 1) (k + 1) with hh | hh
+              · exact hh
+              · have : t + 1 = k + 1 := by omega
+                exfalso; apply hne0
+                show m.β 0 (it m 0 t (m.β 3 ld)) = 0
+                rw [← it_succ', this]; exact eG
+            exact ⟨_, memF (t + 1) this, it_succ' m 0 t _⟩
+        · constructor
+          · intro hne0
+            have : t + 1 < k + 1 := by
+              rcases Nat.lt_or_ge (t + 1) (k + 1) with hh | hh
+              · exact hh
+              · have : t + 1 = k + 1 := by omega
+                exfalso; apply hne0
+                show m.β 1 (it m 1 t ld) = 0
+                rw [← it_succ', this]; exact eF
+            exact ⟨_, memF (t + 1) this, it_succ' m 1 t ld⟩
+          · intro hne0
+            cases t with
+            | zero =>
+                have : 0 < k' := by
+                  rcases Nat.eq_zero_or_pos k' with hk | hk
+                  · rw [hk] at endB; exact absurd endB hne0
+                  · exact hk
+                exact ⟨_, memB 0 this, rfl⟩
+            | succ t =>
+                refine ⟨_, memF t (by omega), ?_⟩
+                exact (walk_back hw d01 hrn (nzF (t + 1) ht).2).symm
+  · -- closed left face: by the mirror condition the right one closes at the same step
+    rw [if_neg ha0] at h
+    obtain ⟨_, hm'⟩ := run_pure_ok h
+    rw [hm']
+    have hald : a = ld := by rcases hst with hh | hh; exact hh; exact absurd hh ha0
+    have hpl : it m 1 (k + 1) ld = ld := by rw [← ha']; exact hald
+    have cl : Cyc m 1 ld (k + 1) := ⟨by omega, hpl, periodic_nz (hw.null 1 (by omega)) (by omega) hpl hl0⟩
+    -- Mirror at the last dart of the left face
+    have hpr : it m 0 (k + 1) (m.β 3 ld) = m.β 3 ld := by
+      obtain ⟨l1, l2, l3⟩ := linkedF k (by omega)
+      have hxn : it m 1 k ld < m.n := it_lt hw (by omega) k ld hln
+      have e1 : m.β 1 (it m 1 k ld) = ld := by rw [← it_succ']; exact hpl
+      have := hM _ hxn (by rw [e1]; exact hl0) (by rw [l1]; exact l3) (by rw [e1]; exact hne)
+      rw [e1, l1] at this
+      -- β1 rd = q_k  ⇒  β0 q_k = rd
+      have := hw.inv01 _ hrn (by rw [this]; exact l3)
+      rw [‹m.β 1 (m.β 3 ld) = it m 0 k (m.β 3 ld)›] at this
+      rw [it_succ']; exact this
+    have cr : Cyc m 0 (m.β 3 ld) (k + 1) :=
+      ⟨by omega, hpr, periodic_nz (hw.null 0 (by omega)) (by omega) hpr hne⟩
+    exact ⟨_, LF, mem0, covered_closed hw hln hrn cl cr, hw1⟩
+
+
+/-- **`three_unlink` on a CLOSED left face of a mirrored map**: `m` is the result with exactly the
+    pairs `(β1^t ld, β0^t (β3 ld))`, `t < L`, 3-linked; both faces are closed with `L` darts -/
+theorem threeUnlink3_unlinked_closed {n ld : Nat} {m m' : Map X} {u : Unit} (hw : WF 4 m) (hM : Mirror m)
+    (hln : ld < m.n) (hclosed : ∀ t, it m 1 t ld ≠ 0)
+    (h : run (threeUnlink3 (X := X) n ld) m = (.ok u, m')) :
+    ∃ L, m.β 3 ld ≠ 0 ∧ Linked3 m' m (walkPairs m 1 0 L ld (m.β 3 ld)) ∧ Cyc m 1 ld L ∧
+      Cyc m 0 (m.β 3 ld) L ∧ (∀ t, 0 < t → t < L → it m 1 t ld ≠ ld) ∧
+      (∀ t, 0 < t → t < L → it m 0 t (m.β 3 ld) ≠ m.β 3 ld) ∧ WF 4 m' := by
+  unfold threeUnlink3 at h
+  obtain ⟨rd, hb0, h⟩ := run_ro_bind_ok (ReadOnly.rB _ _) h
+  obtain ⟨rfl, _, _⟩ := run_rB_ok hb0
+  obtain ⟨_, m0, hl, h⟩ := run_bind_ok h
+  obtain ⟨_, _, hne, rfl⟩ := iUnlinkCore_ok hl
+  have em : (m.setβ 3 ld 0).setβ 3 (m.β 3 ld) 0 = m.unlinkI 3 ld := rfl
+  rw [em] at h
+  obtain ⟨ls0, hb, h⟩ := run_ro_bind_ok (ReadOnly.rB _ _) h
+  obtain ⟨rfl, _, _⟩ := run_rB_ok hb
+  obtain ⟨rs0, hb', h⟩ := run_ro_bind_ok (ReadOnly.rB _ _) h
+  obtain ⟨rfl, _, _⟩ := run_rB_ok hb'
+  obtain ⟨⟨a, b⟩, m1, hwalk, h⟩ := run_bind_ok h
+  simp only [] at h
+  have hrn : m.β 3 ld < m.n := hw.range 3 (by omega) ld hln
+  have hl0 : ld ≠ 0 := fun hh => hne (by rw [hh]; exact hw.null 3 (by omega))
+  have hw0 : WF 4 (m.unlinkI 3 ld) := hw.unlinkI (by omega) (by omega) hln hne
+  have L0 := Linked3.unlink_single hw hln hne
+  obtain ⟨k, L1, ha, hb2, hst, hw1, hminw⟩ := unlinkWalk_unlinked (by omega) (by omega) _ _ _ _ m1 (a, b) hw0
+    (hw0.range 1 (by omega) ld hln) (hw0.range 0 (by omega) _ hrn) hwalk
+  have hβ1 : ∀ x, (m.unlinkI 3 ld).β 1 x = m.β 1 x := fun x => (L0.other 1 x (by omega)).symm
+  have hβ0 : ∀ x, (m.unlinkI 3 ld).β 0 x = m.β 0 x := fun x => (L0.other 0 x (by omega)).symm
+  rw [walkPairs_congr hβ1 hβ0, hβ1, hβ0] at L1
+  simp only at ha hb2
+  rw [it_congr hβ1, hβ1] at ha
+  simp only [it_congr hβ1, hβ1] at hminw
+  have ha' : a = it m 1 (k + 1) ld := ha
+  have LF : Linked3 m1 m (walkPairs m 1 0 (k + 1) ld (m.β 3 ld)) := by
+    refine (L1.append L0).of_mem (fun x => ?_)
+    simp only [walkPairs, List.mem_cons, List.mem_append, List.not_mem_nil, or_false]
+    exact Or.comm
+  have linkedF : ∀ t, t < k + 1 → m.β 3 (it m 1 t ld) = it m 0 t (m.β 3 ld) ∧ it m 1 t ld ≠ 0 ∧
+      it m 0 t (m.β 3 ld) ≠ 0 := by
+    intro t ht
+    obtain ⟨a1, _, _, _, a5, a6, _, _⟩ := LF.pairs _ ((mem_walkPairs _ ld _ _).2 ⟨t, ht, rfl⟩)
+    exact ⟨a1, a5, a6⟩
+  have ha0 : a ≠ 0 := by rw [ha']; exact hclosed _
+  rw [if_neg ha0] at h
+  obtain ⟨_, hm'⟩ := run_pure_ok h
+  rw [hm']
+  have hald : a = ld := by rcases hst with hh | hh; exact hh; exact absurd hh ha0
+  have hpl : it m 1 (k + 1) ld = ld := by rw [← ha']; exact hald
+  have cl : Cyc m 1 ld (k + 1) := ⟨by omega, hpl, hclosed⟩
+  have hpr : it m 0 (k + 1) (m.β 3 ld) = m.β 3 ld := by
+    obtain ⟨l1, l2, l3⟩ := linkedF k (by omega)
+    have hxn : it m 1 k ld < m.n := it_lt hw (by omega) k ld hln
+    have e1 : m.β 1 (it m 1 k ld) = ld := by rw [← it_succ']; exact hpl
+    have := hM _ hxn (by rw [e1]; exact hl0) (by rw [l1]; exact l3) (by rw [e1]; exact hne)
+    rw [e1, l1] at this
+    have := hw.inv01 _ hrn (by rw [this]; exact l3)
+    rw [‹m.β 1 (m.β 3 ld) = it m 0 k (m.β 3 ld)›] at this
+    rw [it_succ']; exact this
+  have cr : Cyc m 0 (m.β 3 ld) (k + 1) :=
+    ⟨by omega, hpr, periodic_nz (hw.null 0 (by omega)) (by omega) hpr hne⟩
+  have hminl : ∀ t, 0 < t → t < k + 1 → it m 1 t ld ≠ ld := by
+    intro t h0 ht
+    cases t with
+    | zero => omega
+    | succ t => exact hminw t (by omega)
+  refine ⟨k + 1, hne, LF, cl, cr, hminl, ?_, hw1⟩
+  intro t h0 ht hh
+  -- q_t = rd ⇒ p_t = ld (β3 is injective on linked darts)
+  obtain ⟨l1, l2, _⟩ := linkedF t ht
+  have b1 := invol_back hw (i := 3) (by omega) (by omega) (it_lt hw (i := 1) (by omega) t ld hln) (by rw [l1, hh]; exact hne)
+  rw [l1, hh, invol_back hw (by omega) (by omega) hln hne] at b1
+  exact hminl t h0 ht b1.symm
 
 end HC.Cell3
